@@ -21,7 +21,7 @@ REQUIRED_TAGS = ['compared']
 LIMITS = {'quick': {'max_paths': 20000, 'max_s': 150}, 'thorough': {'max_paths': 200000, 'max_s': 900}}
 
 HIER = ['param-override', 'bare-value', 'none-override', 'method-command', 'mixin', 'inherit-false', 'struct', 'enum-growth', 'two-level',
-        'method-struct-command', 'property-two-level', 'bare-below-param', 'mixin-merge']
+        'method-struct-command', 'property-two-level', 'bare-below-param', 'mixin-merge', 'feature-mixin', 'diamond']
 
 
 def cases(tier):
@@ -34,7 +34,7 @@ def cases(tier):
 
 def base_classes():
     """the part of the program every hierarchy shares; called once per world"""
-    from frappy.core import Module, Writable, Parameter, Command, FloatRange, IntRange, EnumType, StringType, StructOf
+    from frappy.core import Module, Writable, Parameter, Command, FloatRange, IntRange, EnumType, StringType, StructOf, TupleOf
     from frappy.extparams import StructParam
     from frappy.mixins import HasControlledBy
 
@@ -45,6 +45,9 @@ def base_classes():
         pf = Parameter('float', FloatRange(0, 100, unit='K'), readonly=False, default=1)
         pe = Parameter('enum', EnumType('e', a=1, b=2), readonly=False, default=1)
         ps = Parameter('string', StringType(), default='base')
+        # container datatypes (no properties of their own) whose members carry the main unit
+        pw = Parameter('window', TupleOf(FloatRange(0, 100, unit='$'), FloatRange(0, 10, unit='$/s')), readonly=False, default=(1, 1))
+        pst = Parameter('struct of limits', StructOf(lo=FloatRange(0, 100, unit='$'), n=IntRange(0, 5)), readonly=False, default={'lo': 1, 'n': 1})
         ctrl = StructParam('struct', dict(p=Parameter('p', FloatRange(0, 10)), i=Parameter('i', FloatRange(0, 10))), 'c_', readonly=False)
 
         @Command(FloatRange(0, 10), result=FloatRange())
@@ -189,6 +192,28 @@ def run_isolation(env, p):
             visibility = 3
         subs['Sub'] = Sub
         subs['SubSub'] = SubSub
+    elif h == 'feature-mixin':
+        from frappy.features import HasOffset
+
+        class Sub(HasOffset, Base):
+            pass
+
+        class SubSub(Sub):
+            pass
+        subs['Sub'] = Sub
+        subs['SubSub'] = SubSub
+    elif h == 'diamond':
+        class Left(Base):
+            pf = Parameter(readonly=True)
+
+        class Right(Base):
+            pf = Parameter(max=hi)
+
+        class Diamond(Left, Right):
+            pass
+        subs['Left'] = Left
+        subs['Right'] = Right
+        subs['Diamond'] = Diamond
     elif h == 'bare-below-param':
         class Sub(Base):
             pf = Parameter(max=hi)
@@ -217,6 +242,7 @@ def run_isolation(env, p):
     iconfigured = names.index('Base')
     node_cfg[f'base{iconfigured}']['pf'] = {'value': cval, 'max': cmax}
     node_cfg[f'base{iconfigured}']['visibility'] = 'expert'
+    node_cfg[f'base{iconfigured}']['value'] = {'unit': 'mbar'}     # a main unit of its own: '$' in member units is replaced per instance
     try:
         srv = C.make_node(node_cfg)
     except Exception as e:
@@ -233,6 +259,8 @@ def run_isolation(env, p):
     if mutate == 1:
         configured.parameters['pf'].datatype.setProperty('max', cmax / 2)
         configured.parameters['pe'].datatype = EnumType('e', a=1, b=2, rt=n_enum)
+        configured.parameters['pw'].datatype.members[0].setProperty('max', cmax / 2)
+        configured.parameters['pst'].datatype.members['lo'].setProperty('max', cmax / 2)
     elif mutate == 2:
         configured.parameters['ps'].setProperty('description', 'changed at run time')
         configured.setProperty('group', 'grp')
@@ -289,6 +317,23 @@ def run_isolation(env, p):
         env.check('group' not in d[plain.name] and d[plain.name].get('visibility', 1) in (1, 'user'), K + '/base-class-rewritten-by-subclass')
         _, again = describe(w, ['Sub'])
         env.check(again['Sub'].get('group') == 'lab', K + '/later-instance-of-intermediate-class-rewritten', again['Sub'].get('group'))
+    if h == 'feature-mixin':
+        env.check(d['sub0'].get('features') == ['HasOffset'] and d['subsub1'].get('features') == ['HasOffset'], K + '/features-of-subclass-lost',
+                  [d['sub0'].get('features'), d['subsub1'].get('features')])
+        env.check(not d[plain.name].get('features'), K + '/base-got-the-features-of-a-subclass', d[plain.name].get('features'))
+        _, again = describe(w, ['Base', 'Sub'])
+        env.check(again['Sub'].get('features') == ['HasOffset'] and not again['Base'].get('features'), K + '/features-depend-on-creation-order',
+                  [again['Sub'].get('features'), again['Base'].get('features')])
+    if h == 'diamond':
+        le = acc('left0', '_pf')
+        env.check(le['datainfo'].get('max') == 100 and le.get('readonly') is True, K + '/class-rewritten-by-a-class-inheriting-from-it', le)
+        ri = acc('right1', '_pf')
+        env.check(M.eq(ri['datainfo'].get('max'), hi) and ri.get('readonly') is False, K + '/class-rewritten-by-a-class-inheriting-from-it', ri)
+        _, again = describe(w, ['Left'])
+        env.check(again['Left']['accessibles']['_pf']['datainfo'].get('max') == 100, K + '/later-instance-of-a-base-rewritten-by-diamond', None)
+    # the configured instance shows its own main unit in container members, every other instance its own
+    cw = acc(configured.name, '_pw')['datainfo']['members'][0].get('unit')
+    env.check(cw == 'mbar', K + '/main-unit-not-applied-to-container-members', cw)
     if h == 'bare-below-param':
         env.check(M.eq(acc('sub0', '_pf')['datainfo'].get('max'), hi), K + '/intermediate-class-changed')
         env.check(acc('sib2', '_pf')['datainfo'].get('max') == 100, K + '/sibling-defined-later-got-the-override', acc('sib2', '_pf')['datainfo'].get('max'))
